@@ -51,7 +51,8 @@
     limit to that machine (after the draw of the limit distribution, if any), a self-transition is
     not; every decrement logs the tracked limit minus one (0 stays 0) and is DIRECTLY followed by the
     LimitReached delivery to that machine exactly when it logs 0 in a state whose action carries a
-    limit. `C07_log_own_completions` (per call, decrements of `j` <= completions reported for `j`),
+    limit (in plain terms: `C07_log_resample_exact`, `C07_log_decrement_exact`).
+    `C07_log_own_completions` (per call, decrements of `j` <= completions reported for `j`),
     `C07_log_single_completion` (single-event call reporting a completion for a live machine: its
     pre-signal log holds no decrement and a change of the machine's state, or exactly one decrement
     and no change of its state before it — whatever the kind of the completion; rests on
@@ -521,6 +522,42 @@ theorem C07_log_accepted (es : List TEvent) (t : Int) (s : Fw σ) (hok : (trigge
     (l : List LogEntry) (hl : (triggerEvents ρ es t s).log = l ++ s.log) :
     checkLog s.machines (LL.limOf s.snap) (LL.stOf s.snap) (fun _ => none) l.reverse = none :=
   LL.call_accepted ρ es t s hok l hl _
+
+/-- the decrement rule in plain terms. In the chronological log of a fault-free call, at a decrement
+    entry `limit mi v true` (`f` = the limits and states the monitor tracks up to that point:
+    the snapshot before the call, updated by the limit entries and sampled states of the prefix):
+    `v` is the tracked limit minus one (0 stays 0), and the entry is IMMEDIATELY followed by the
+    LimitReached delivery to `mi` exactly when `v = 0` and the action of `mi`'s tracked state
+    carries a limit. -/
+theorem C07_log_decrement_exact (es : List TEvent) (t : Int) (s : Fw σ) (hok : (triggerEvents ρ es t s).fault = none)
+    (l : List LogEntry) (hl : (triggerEvents ρ es t s).log = l ++ s.log)
+    (pre rest : List LogEntry) (mi v : Nat) (hsplit : l.reverse = pre ++ .limit mi v true :: rest) :
+    v = (if (LL.after (LL.limOf s.snap, LL.stOf s.snap) pre).1 mi > 0
+          then (LL.after (LL.limOf s.snap, LL.stOf s.snap) pre).1 mi - 1 else 0) ∧
+    ((∃ st rest', rest = .trans mi Gen.EV_LimitReached st :: rest') ↔
+      (v = 0 ∧ hasLimitAt s.machines mi ((LL.after (LL.limOf s.snap, LL.stOf s.snap) pre).2 mi) = true)) := by
+  have h := C07_log_accepted ρ es t s hok l hl
+  rw [hsplit] at h
+  obtain ⟨h1, h2, _⟩ := LL.checkLog_limitT_none _ _ _ _ mi v rest (LL.checkLog_split _ pre _ _ _ _ h)
+  refine ⟨h1, ?_⟩
+  rw [← LL.nextLR_iff, h2]
+  simp
+
+/-- the resampling rule in plain terms. In the chronological log of a fault-free call, a sampled
+    regular state `next` of machine `mi` is IMMEDIATELY followed by the assignment of a fresh limit
+    to `mi` — directly or after exactly one distribution draw — exactly when `next` differs from the
+    state tracked for `mi` up to that point; a self-transition is never followed by one. -/
+theorem C07_log_resample_exact (es : List TEvent) (t : Int) (s : Fw σ) (hok : (triggerEvents ρ es t s).fault = none)
+    (l : List LogEntry) (hl : (triggerEvents ρ es t s).log = l ++ s.log)
+    (pre rest : List LogEntry) (mi ev next : Nat) (hsplit : l.reverse = pre ++ .sampled mi ev next :: rest)
+    (hreg : isRegular next = true) :
+    ((∃ x rest', rest = .limit mi x false :: rest') ∨ (∃ b x rest', rest = .distRaw b :: .limit mi x false :: rest')) ↔
+      next ≠ (LL.after (LL.limOf s.snap, LL.stOf s.snap) pre).2 mi := by
+  have h := C07_log_accepted ρ es t s hok l hl
+  rw [hsplit] at h
+  have h1 := (LL.checkLog_sampled_none _ _ _ _ mi ev next rest (LL.checkLog_split _ pre _ _ _ _ h)).1 hreg
+  rw [← LL.followsB_iff, h1]
+  simp
 
 /-- rule 2 of the monitor, per call (no hypothesis at all): the call's log holds at most as many
     decrements of `j`'s limit as the call reports completions for `j` -/
